@@ -432,9 +432,38 @@ type vOut struct {
 	panicMsg       string
 }
 
-// verifParse runs the generated parser once. Every listener / handler call is one step; after
-// 10^4*(len+1) steps the parse is aborted (non-termination with observable steps).
-func verifParse(text string, stop bool) (o vOut) {
+// vSession is one Parser VALUE: it is initialised once (or again before a parse when reinit is
+// asked for) and may parse several inputs one after the other (histories).
+type vSession struct {
+	p             Parser
+	cur           *vOut
+	steps, budget int
+	stop          bool
+}
+
+func (s *vSession) init() {
+	eh := func(se SyntaxError) bool {
+		s.cur.handler = append(s.cur.handler, [2]int{se.Offset, se.Endoffset})
+		if s.steps++; s.steps > s.budget {
+			panic(rt.Abort{})
+		}
+		return !s.stop
+	}
+	_ = eh
+	listener := func(t NodeType, offset, endoffset int) {
+		s.cur.events = append(s.cur.events, rt.Event{Type: t.String(), Off: offset, End: endoffset})
+		if s.steps++; s.steps > s.budget {
+			panic(rt.Abort{})
+		}
+	}
+	PARSERINIT
+}
+
+// parse runs the generated parser once on this parser value. Every listener / handler call is one
+// step; after 10^4*(len+1) steps the parse is aborted (non-termination with observable steps).
+func (s *vSession) parse(text string) (o vOut) {
+	s.cur = &o
+	s.steps, s.budget = 0, 10000*(len(text)+1)
 	defer func() {
 		if e := recover(); e != nil {
 			if _, ok := e.(rt.Abort); ok {
@@ -450,25 +479,7 @@ func verifParse(text string, stop bool) (o vOut) {
 	}()
 	var l Lexer
 	l.Init(text)
-	var p Parser
-	budget := 10000 * (len(text) + 1)
-	steps := 0
-	eh := func(se SyntaxError) bool {
-		o.handler = append(o.handler, [2]int{se.Offset, se.Endoffset})
-		if steps++; steps > budget {
-			panic(rt.Abort{})
-		}
-		return !stop
-	}
-	_ = eh
-	listener := func(t NodeType, offset, endoffset int) {
-		o.events = append(o.events, rt.Event{Type: t.String(), Off: offset, End: endoffset})
-		if steps++; steps > budget {
-			panic(rt.Abort{})
-		}
-	}
-	PARSERINIT
-	err := p.Parse(&l)
+	err := s.p.Parse(&l)
 	if err == nil {
 		o.accept = true
 	} else if se, ok := err.(SyntaxError); ok {
@@ -477,6 +488,31 @@ func verifParse(text string, stop bool) (o vOut) {
 		o.errOff, o.errMsg = -1, "other: "+err.Error()
 	}
 	return o
+}
+
+// verifParse parses text with a fresh parser value.
+func verifParse(text string, stop bool) vOut {
+	s := &vSession{stop: stop}
+	s.init()
+	return s.parse(text)
+}
+
+func (o *vOut) full() string { return o.verdict() + "|" + o.handlers() + "|" + o.eventString() }
+
+// verifHistory parses w1 and then w2 on ONE parser value (reinit: Init is called again before
+// the second parse) and returns the outcome of the second parse; ok=false if the first parse
+// panicked or ran out of budget (reported by the single-input sweep).
+func verifHistory(w1, w2 string, reinit bool) (o vOut, ok bool) {
+	s := &vSession{}
+	s.init()
+	first := s.parse(w1)
+	if first.panicMsg != "" || first.aborted {
+		return first, false
+	}
+	if reinit {
+		s.init()
+	}
+	return s.parse(w2), true
 }
 
 // verifParseTimed is verifParse with a watchdog for loops that have no observable step: the
@@ -554,16 +590,29 @@ func (o *vOut) eventString() string {
 // records "len|mode|verdict|handlers|flags" with their multiplicity and first input, plus the
 // events of every sentence.
 func VerifRun(entry, mode, text string) (res rt.Result) {
+	if mode == "pair" || mode == "pair-reinit" {
+		// text = w1 + "\x00" + w2: the outcome of w2 after w1 on one parser value; Values carries
+		// the outcome of a fresh parser on w2 (verdict|handlers|events)
+		i := strings.IndexByte(text, 0)
+		o, _ := verifHistory(text[:i], text[i+1:], mode == "pair-reinit")
+		res.Accept, res.ErrOff, res.ErrEnd, res.ErrMsg = o.accept, o.errOff, o.errEnd, o.errMsg
+		res.Events, res.Handler, res.Aborted, res.Panic = o.events, o.handler, o.aborted, o.panicMsg
+		f := verifParse(text[i+1:], false)
+		res.Extra = map[string]any{"history": o.full(), "fresh": f.full()}
+		return res
+	}
 	if mode == "one" || mode == "one-stop" {
 		o := verifParse(text, mode == "one-stop")
 		res.Accept, res.ErrOff, res.ErrEnd, res.ErrMsg = o.accept, o.errOff, o.errEnd, o.errMsg
 		res.Events, res.Handler, res.Aborted, res.Panic = o.events, o.handler, o.aborted, o.panicMsg
 		return res
 	}
-	L := 0
+	L, H := 0, 0
 	exp := map[string]int{}
 	for _, f := range strings.Split(text, ";") {
 		switch {
+		case strings.HasPrefix(f, "H="):
+			H, _ = strconv.Atoi(f[2:])
 		case strings.HasPrefix(f, "L="):
 			L, _ = strconv.Atoi(f[2:])
 		case strings.HasPrefix(f, "v="):
@@ -673,7 +722,46 @@ func VerifRun(entry, mode, text string) (res rt.Result) {
 	for _, k := range order {
 		out = append(out, []any{k, classes[k].n, classes[k].first})
 	}
-	res.Extra = map[string]any{"classes": out, "sent": sent, "runs": runs}
+	// histories of length 2 on one parser value: every pair (w1, w2) of token strings up to
+	// length H; the second parse must be indistinguishable from a fresh parser on w2
+	var hist []any
+	histRuns := 0
+	if H > 0 && truncated == "" {
+		var ws []string
+		var gen func(prefix string, k int)
+		for n := 0; n <= H; n++ {
+			gen = func(prefix string, k int) {
+				if k == 0 {
+					ws = append(ws, prefix)
+					return
+				}
+				for i := 0; i < 3; i++ {
+					gen(prefix+string(sigma[i]), k-1)
+				}
+			}
+			gen("", n)
+		}
+		fresh := make([]string, len(ws))
+		for i, w := range ws {
+			o := verifParse(w, false)
+			fresh[i] = o.full()
+		}
+		for _, w1 := range ws {
+			for j, w2 := range ws {
+				for _, reinit := range []bool{false, true} {
+					o, ok := verifHistory(w1, w2, reinit)
+					histRuns++
+					if !ok {
+						continue
+					}
+					if got := o.full(); got != fresh[j] && len(hist) < 12 {
+						hist = append(hist, []any{w1, w2, reinit, got, fresh[j]})
+					}
+				}
+			}
+		}
+	}
+	res.Extra = map[string]any{"classes": out, "sent": sent, "runs": runs, "hist": hist, "histRuns": histRuns}
 	if truncated != "" {
 		res.Extra["truncated"] = truncated
 	}
@@ -685,9 +773,9 @@ func VerifRun(entry, mode, text string) (res rt.Result) {
 func driver(g *grammar.Grammar, name string) string {
 	src := strings.ReplaceAll(drvSrc, "PKGNAME", name)
 	if g.Parser.IsRecovering {
-		return strings.ReplaceAll(src, "PARSERINIT", "p.Init(eh, listener)")
+		return strings.ReplaceAll(src, "PARSERINIT", "s.p.Init(eh, listener)")
 	}
-	return strings.ReplaceAll(src, "PARSERINIT", "p.Init(listener)")
+	return strings.ReplaceAll(src, "PARSERINIT", "s.p.Init(listener)")
 }
 
 // ---------------------------------------------------------------------------------------------
@@ -783,6 +871,10 @@ type recCase struct {
 	V      variant         `json:"variant"`
 	Text   string          `json:"text"`
 	Stop   bool            `json:"stop"`
+	// history cases: First is parsed before Text on the same parser value (Reinit: Init again in between)
+	History bool   `json:"history,omitempty"`
+	First   string `json:"first,omitempty"`
+	Reinit  bool   `json:"reinit,omitempty"`
 }
 
 // expectations computes, for every token string up to length L, -1 for sentences and otherwise
@@ -878,6 +970,7 @@ type twinKey struct {
 type runner struct {
 	c        *core.Ctx
 	L        int
+	H        int // histories: pairs of token strings up to this length on one parser value
 	mu       sync.Mutex
 	twins    map[twinKey]map[string]string // sentence input -> "A||events" of the twin
 	twinTM   map[twinKey]string
@@ -888,9 +981,9 @@ type runner struct {
 	hungMore int
 }
 
-func sweepText(L int, exp map[string]int) string {
+func sweepText(L, H int, exp map[string]int) string {
 	var sb strings.Builder
-	fmt.Fprintf(&sb, "L=%d;v=", L)
+	fmt.Fprintf(&sb, "L=%d;H=%d;v=", L, H)
 	first := true
 	gramenum.AllStrings(3, L, func(w string) {
 		if !first {
@@ -929,7 +1022,10 @@ func run(c *core.Ctx) {
 	if !complete {
 		c.Capped(fmt.Sprintf("Layer B: %d of %d candidate recovery grammars generated and built (per-stratum stride)", len(sel), total))
 	}
-	r := &runner{c: c, L: L, twins: map[twinKey]map[string]string{}, twinTM: map[twinKey]string{}}
+	// the shipped parsers first: cheap (a few seconds) and independent of the time budget
+	shippedPart(c)
+	debugf("shipped done")
+	r := &runner{c: c, L: L, H: L - 2, twins: map[twinKey]map[string]string{}, twinTM: map[twinKey]string{}}
 	const batch = 48
 	for start := 0; start < len(sel); start += batch {
 		if c.Expired() {
@@ -945,8 +1041,6 @@ func run(c *core.Ctx) {
 		c.Capped(fmt.Sprintf("%d further suspected hangs were not re-run alone", r.hungMore))
 	}
 	debugf("layer B done")
-	shippedPart(c)
-	debugf("shipped done")
 }
 
 func getenv(k string) string { return os.Getenv(k) }
@@ -981,7 +1075,7 @@ func (r *runner) batch(items []*item, offset int) {
 		p := &preps[i]
 		specOf[i] = len(specs)
 		specs = append(specs, genharness.Spec{Name: p.name, TM: p.tm, Driver: driver,
-			Cases: []genharness.Case{{Mode: "sweep", Text: sweepText(r.L, p.exp)}}})
+			Cases: []genharness.Case{{Mode: "sweep", Text: sweepText(r.L, r.H, p.exp)}}})
 		if _, done := r.twins[p.twin]; !done {
 			if _, ok := twinSpec[p.twin]; !ok {
 				tname := fmt.Sprintf("gt%05d", offset+i)
@@ -991,7 +1085,7 @@ func (r *runner) batch(items []*item, offset int) {
 				bexp, _ := expectations(it.base, r.L)
 				twinSpec[p.twin] = len(specs)
 				specs = append(specs, genharness.Spec{Name: tname, TM: ttm, Driver: driver,
-					Cases: []genharness.Case{{Mode: "sweep", Text: sweepText(r.L, bexp)}}})
+					Cases: []genharness.Case{{Mode: "sweep", Text: sweepText(r.L, 0, bexp)}}})
 			}
 		}
 	}
@@ -1125,6 +1219,24 @@ func (r *runner) batch(items []*item, offset int) {
 				} else {
 					c.Outcome("stop mode: first error returned", int64(cnt))
 				}
+			}
+		}
+		if hr, ok := res.Extra["histRuns"].(float64); ok {
+			r.runs += int64(hr)
+			c.Eval(int64(hr))
+			c.Add("history_runs", int64(hr))
+		}
+		if hs, ok := res.Extra["hist"].([]any); ok {
+			for _, h := range hs {
+				t := h.([]any)
+				w1, w2, reinit, got, want := t[0].(string), t[1].(string), t[2].(bool), t[3].(string), t[4].(string)
+				k := rc(w2, false)
+				k.History, k.First, k.Reinit = true, w1, reinit
+				key := "history:second-parse-differs-from-fresh-parser"
+				if reinit {
+					key += ":after-reinit"
+				}
+				c.Violate(keyFor(it.v, key), fmt.Sprintf("one parser value parses %q and then %q (Init again in between: %v): the second parse gives %q, a fresh parser gives %q (verdict|handlers|events); grammar %s + %s variant %+v", w1, w2, reinit, got, want, it.base, rulesString(it.errs), it.v), k)
 			}
 		}
 		r.states += int64(len(distinct))
@@ -1281,9 +1393,37 @@ func replay(c *core.Ctx, raw json.RawMessage) error {
 	}
 	if k.Base == nil {
 		if k.TM == "" && k.TwinTM == "" {
+			var h shippedHistory
+			if json.Unmarshal(raw, &h) == nil && h.Lang != "" {
+				if got, want := runShippedHistory(h); got != want {
+					return fmt.Errorf("second parse gives %s, a fresh parser gives %s", oneLine(got), oneLine(want))
+				}
+				return nil
+			}
 			return shippedReplay(raw)
 		}
 		return fmt.Errorf("no grammar recorded")
+	}
+	if k.History {
+		mode := "pair"
+		if k.Reinit {
+			mode = "pair-reinit"
+		}
+		outs, err := genharness.RunBatch([]genharness.Spec{{Name: tmName(k.TM), TM: k.TM, Driver: driver, Cases: []genharness.Case{{Mode: mode, Text: k.First + "\x00" + k.Text}}}}, genharness.BatchOpts{CaseTimeout: 45 * time.Second})
+		if err != nil {
+			return err
+		}
+		if len(outs) != 1 || len(outs[0].Results) != 1 || outs[0].Results[0].Extra == nil {
+			if outs[0].GenErr != "" {
+				return nil
+			}
+			return fmt.Errorf("history run failed: %s %s %+v", outs[0].GenPanic, outs[0].BuildErr, outs[0].Results)
+		}
+		e := outs[0].Results[0].Extra
+		if e["history"] != e["fresh"] {
+			return fmt.Errorf("second parse after %q gives %v, a fresh parser gives %v", k.First, e["history"], e["fresh"])
+		}
+		return nil
 	}
 	full := k.Base.Clone()
 	full.Rules = append(full.Rules, k.Errs...)
@@ -1543,6 +1683,179 @@ func shippedPart(c *core.Ctx) {
 	}
 	c.States(int64(len(distinct)))
 	c.Transitions(int64(len(jobs)))
+	if atomic.LoadInt32(&hung) > 0 {
+		c.Capped("shipped parsers: histories not run because single parses did not return")
+		return
+	}
+	shippedHistories(c)
+}
+
+// hOut is what one parse of a reused shipped parser value reports.
+type hOut struct {
+	err      string
+	handlers [][2]int
+	events   []shipped.Event
+	steps    int
+}
+
+func (o *hOut) String() string { return fmt.Sprintf("%s|%v|%v", o.err, o.handlers, o.events) }
+
+// hSession is ONE tm.Parser / js.Parser value used for several inputs (a new TokenStream per
+// input, as in the parsers' own tests).
+type hSession struct {
+	lang string
+	tmp  tm.Parser
+	jsp  js.Parser
+	cur  *hOut
+	max  int
+}
+
+func (s *hSession) node(t, off, end int) {
+	s.cur.events = append(s.cur.events, shipped.Event{Type: t, Off: off, End: end})
+	if s.cur.steps++; s.cur.steps > s.max {
+		panic(shipped.TooManyEvents{N: s.cur.steps})
+	}
+}
+
+func (s *hSession) handler(off, end int) bool {
+	s.cur.handlers = append(s.cur.handlers, [2]int{off, end})
+	if s.cur.steps++; s.cur.steps > s.max {
+		panic(shipped.TooManyEvents{N: s.cur.steps})
+	}
+	return true
+}
+
+func (s *hSession) init() {
+	if s.lang == "tm" {
+		s.tmp.Init(func(se tm.SyntaxError) bool { return s.handler(se.Offset, se.Endoffset) }, func(t tm.NodeType, off, end int) { s.node(int(t), off, end) })
+	} else {
+		s.jsp.Init(func(se js.SyntaxError) bool { return s.handler(se.Offset, se.Endoffset) }, func(t js.NodeType, off, end int) { s.node(int(t), off, end) })
+	}
+}
+
+func (s *hSession) parse(src string) (o hOut) {
+	s.cur = &o
+	s.max = 10000 * (len(src) + 1)
+	defer func() {
+		if e := recover(); e != nil {
+			if _, ok := e.(shipped.TooManyEvents); ok {
+				o.err = "step budget exhausted"
+			} else {
+				o.err = fmt.Sprint("panic: ", e)
+			}
+		}
+	}()
+	var err error
+	if s.lang == "tm" {
+		var st tm.TokenStream
+		st.Init(src, func(t tm.NodeType, off, end int) { s.node(int(t), off, end) })
+		err = s.tmp.ParseFile(context.Background(), &st)
+	} else {
+		var st js.TokenStream
+		st.Init(src, func(t js.NodeType, off, end int) { s.node(int(t), off, end) })
+		err = s.jsp.ParseModule(context.Background(), &st)
+	}
+	switch e := err.(type) {
+	case nil:
+		o.err = "nil"
+	case tm.SyntaxError:
+		o.err = fmt.Sprintf("SyntaxError[%d,%d)", e.Offset, e.Endoffset)
+	case js.SyntaxError:
+		o.err = fmt.Sprintf("SyntaxError[%d,%d)", e.Offset, e.Endoffset)
+	default:
+		o.err = err.Error()
+	}
+	return o
+}
+
+type shippedHistory struct {
+	Lang   string `json:"history_lang"`
+	First  string `json:"first"`
+	Second string `json:"second"`
+	Reinit bool   `json:"reinit"`
+}
+
+func runShippedHistory(k shippedHistory) (got, want string) {
+	fresh := &hSession{lang: k.Lang}
+	fresh.init()
+	w := fresh.parse(k.Second)
+	s := &hSession{lang: k.Lang}
+	s.init()
+	s.parse(k.First)
+	if k.Reinit {
+		s.init()
+	}
+	g := s.parse(k.Second)
+	return g.String(), w.String()
+}
+
+// shippedHistories: every pair (w1, w2) of the malformed inputs on one parser value; the second
+// parse must be indistinguishable from a fresh parser's parse of w2.
+func shippedHistories(c *core.Ctx) {
+	for _, lang := range []string{"tm", "js"} {
+		seeds := tmSeeds
+		if lang == "js" {
+			seeds = jsSeeds
+		}
+		var inputs []string
+		seen := map[string]bool{}
+		for _, seed := range seeds {
+			for _, m := range mutations(lang, seed) {
+				if !seen[m] {
+					seen[m] = true
+					inputs = append(inputs, m)
+				}
+			}
+		}
+		fresh := make([]string, len(inputs))
+		core.ParallelFor(len(inputs), 8, func(i int) {
+			s := &hSession{lang: lang}
+			s.init()
+			o := s.parse(inputs[i])
+			fresh[i] = o.String()
+		})
+		type diff struct {
+			k         shippedHistory
+			got, want string
+		}
+		diffs := make([][]diff, len(inputs))
+		core.ParallelFor(len(inputs), 8, func(i int) {
+			for j := range inputs {
+				for _, reinit := range []bool{false, true} {
+					s := &hSession{lang: lang}
+					s.init()
+					s.parse(inputs[i])
+					if reinit {
+						s.init()
+					}
+					o := s.parse(inputs[j])
+					if g := o.String(); g != fresh[j] && len(diffs[i]) < 3 {
+						diffs[i] = append(diffs[i], diff{shippedHistory{lang, inputs[i], inputs[j], reinit}, g, fresh[j]})
+					}
+				}
+			}
+		})
+		n := int64(len(inputs)) * int64(len(inputs)) * 2
+		c.Eval(n)
+		c.Transitions(n)
+		c.Add("shipped_history_runs", n)
+		for _, ds := range diffs {
+			for _, d := range ds {
+				key := "shipped:" + lang + ":history:second-parse-differs-from-fresh-parser"
+				if d.k.Reinit {
+					key += ":after-reinit"
+				}
+				c.Violate(key, fmt.Sprintf("one %s parser value parses %q and then %q (Init again in between: %v): the second parse gives %s, a fresh parser gives %s (error|handler calls|events)", lang, d.k.First, d.k.Second, d.k.Reinit, oneLine(d.got), oneLine(d.want)), d.k)
+			}
+		}
+	}
+}
+
+func oneLine(s string) string {
+	if len(s) > 160 {
+		return s[:160] + "…"
+	}
+	return s
 }
 
 func shippedReplay(raw json.RawMessage) error {
